@@ -1996,7 +1996,7 @@ class Engine(object):
                     self.heap_array(P, key, z3.ArraySort(IntS, self.esort(ek)))
                 elif key.endswith("$set"):
                     self.heap_array(P, key, BoolS)
-                elif key.endswith("$lastpos") or key.endswith("$vidx") or key.endswith("$nidx"):
+                elif key.endswith("$lastpos") or key.endswith("$vidx") or key.endswith("$nidx") or (key.split(".")[-1].startswith("$") and key.endswith("pos")):
                     self.heap_array(P, key, IntS)
                 elif key.endswith("$lastlist"):
                     self.heap_array(P, key, RefS)
